@@ -155,14 +155,32 @@ theorem stable_finalise : ∀ (fuel : Nat) (s : St) (id : Nat), Stable cfg s (fi
             | raised e => exact stable_refl s
             | ub => exact stable_refl s
 
+theorem stable_destructObj {s : St} {id : Nat} {o : Obj} : Stable cfg s (destructObj cfg s id o).1 := by
+  unfold destructObj
+  split
+  · rename_i x _
+    split
+    · have ht := stable_gcRem (cfg := cfg) (stable_finalise (fuelFor s)) s x
+      split
+      · rename_i s1 heq
+        rw [heq] at ht
+        exact stable_trans ht (stable_updBody s1 id _)
+      · exact ht
+    · exact stable_updBody s id _
+  · exact stable_updBody s id _
+
 theorem stable_freeObj {s : St} (f : FreeOp) {id : Nat} {o : Obj} (hget : s.get id = some o) :
     Stable cfg s (freeObj cfg s f id o).1 := by
   cases f with
   | dealloc => exact stable_dealloc hget
   | deallocRaw => exact stable_dealloc hget
   | deallocRoot => exact stable_dealloc hget
-  | destruct => simp only [freeObj]; exact stable_updBody s id _
-  | delRaw => simp only [freeObj]; exact stable_finalise _ s id
+  | destruct => simp only [freeObj]; exact stable_destructObj
+  | delRaw =>
+    simp only [freeObj]
+    split
+    · exact stable_dealloc hget
+    · exact stable_finalise _ s id
   | del =>
     simp only [freeObj]
     split
@@ -214,7 +232,7 @@ theorem stable_collect (s : St) (vs : List Nat) : Stable cfg s (s.collect cfg vs
     exact stable_trans h1 (stable_trans this (stable_setPending s2 _))
   · exact stable_trans h1 (stable_sweepLoop _ _ _)
 
-theorem stable_stepOwn (s : St) (id : Nat) (target : Option Nat) : Stable cfg s (stepOwn s id target).1 := by
+theorem stable_stepOwn (s : St) (id : Nat) (target : Option Nat) : Stable cfg s (stepOwn cfg s id target).1 := by
   unfold stepOwn
   repeat' split
   all_goals first
